@@ -14,6 +14,14 @@ module in place; all of them preserve behaviour by construction:
                   code base are free of side effects on each other).
   keyword_arguments  positional arguments of calls to module-level package functions and
                   `self.` methods (names unique in the package) passed by keyword.
+  extract_blocks  extract method: every top-level for / while / if / with statement of a
+                  function or method that reads only names bound before it and hands back only
+                  names that were bound before it becomes a new private helper (102 helpers on
+                  the pinned tree); OQuPy's test suite passes on the rewritten package.
+  conditional_expressions / default_first / return_in_branches
+                  three spellings of a two-way choice: `x = A if c else B`; `x = B` followed by
+                  `if c: x = A` (plain defaults only); the function's final return copied into
+                  the arms of the if / elif / else in front of it.
 """
 from __future__ import annotations
 
@@ -541,6 +549,255 @@ class _Unpacker(ast.NodeTransformer):
 def index_unpacking(scratch: str) -> List[str]:
     """Tuple unpacking of call results replaced by indexing a temporary."""
     return _rewrite(scratch, lambda tree, src, full: _Unpacker().visit(tree))
+
+
+# ------------------------------------------------------------------ extract method
+def _loads(node: ast.AST) -> Set[str]:
+    return {x.id for x in ast.walk(node) if isinstance(x, ast.Name) and isinstance(x.ctx, ast.Load)}
+
+
+def _stores(node: ast.AST) -> Set[str]:
+    out = {x.id for x in ast.walk(node) if isinstance(x, ast.Name) and isinstance(x.ctx, (ast.Store, ast.Del))}
+    out |= {h.name for h in ast.walk(node) if isinstance(h, ast.ExceptHandler) and h.name}
+    out |= {h.name for h in ast.walk(node) if isinstance(h, (ast.FunctionDef, ast.ClassDef))}
+    out |= {(a.asname or a.name).split(".")[0] for h in ast.walk(node)
+            if isinstance(h, (ast.Import, ast.ImportFrom)) for a in h.names}
+    return out
+
+
+def _extractable(st: ast.stmt) -> bool:
+    if not isinstance(st, (ast.For, ast.While, ast.If, ast.With)):
+        return False
+    loops = 0
+    for x in ast.walk(st):
+        if isinstance(x, (ast.Return, ast.Yield, ast.YieldFrom, ast.Await, ast.Nonlocal, ast.Global,
+                          ast.FunctionDef, ast.AsyncFunctionDef, ast.ClassDef, ast.Lambda,
+                          ast.NamedExpr)):
+            return False
+        if isinstance(x, ast.Call) and isinstance(x.func, ast.Name) and x.func.id in ("super", "locals", "vars"):
+            return False
+    # break / continue must belong to a loop inside the block
+
+    def escapes(node, in_loop):
+        for ch in ast.iter_child_nodes(node):
+            if isinstance(ch, (ast.Break, ast.Continue)) and not in_loop:
+                return True
+            if escapes(ch, in_loop or isinstance(ch, (ast.For, ast.While))):
+                return True
+        return False
+    return not escapes(st, isinstance(st, (ast.For, ast.While)))
+
+
+class _Extractor:
+    """Every top-level for / while / if / with statement of a function or method whose values
+    flow in through names bound before it and out through names that were already bound
+    before it (an "update" block) or through nothing at all (an effect block) becomes a new
+    private helper; the statement is replaced by the call.  Helpers of methods are methods."""
+
+    def __init__(self):
+        self.k = 0
+
+    def function(self, fn: ast.FunctionDef, is_method: bool, taken: Set[str]) -> List[ast.FunctionDef]:
+        if fn.decorator_list and any(not (isinstance(d, ast.Name) and d.id in ("staticmethod",))
+                                     for d in fn.decorator_list):
+            return []
+        if any(isinstance(d, ast.Name) and d.id == "staticmethod" for d in fn.decorator_list):
+            is_method = False
+        if fn.args.vararg or fn.args.kwarg:
+            return []
+        if any(isinstance(x, (ast.Nonlocal, ast.Global)) for x in ast.walk(fn)):
+            return []
+        nested = [x for x in ast.walk(fn) if isinstance(x, (ast.FunctionDef, ast.Lambda)) and x is not fn]
+        captured = set()
+        for n_ in nested:
+            captured |= _loads(n_) | _stores(n_)
+        params = [a.arg for a in fn.args.posonlyargs + fn.args.args + fn.args.kwonlyargs]
+        self_name = params[0] if (is_method and params) else None
+        locals_ = set(params) | {n for b in fn.body for n in _stores(b)}
+        helpers: List[ast.FunctionDef] = []
+        bound: Set[str] = set(params)
+        new_body: List[ast.stmt] = []
+        for i, st in enumerate(fn.body):
+            later = set()
+            for st2 in fn.body[i + 1:]:
+                later |= _loads(st2)
+            if _extractable(st):
+                reads = (_loads(st) & locals_)
+                writes = _stores(st)
+                live_out = sorted(writes & later)
+                if reads <= bound and set(live_out) <= bound and not (writes & captured) \
+                        and not ((reads | writes) & captured - set(params)) \
+                        and (self_name is None or self_name not in writes):
+                    self.k += 1
+                    name = f"_x{self.k}_{fn.name.strip('_')}"
+                    while name in taken:
+                        self.k += 1
+                        name = f"_x{self.k}_{fn.name.strip('_')}"
+                    taken.add(name)
+                    ins = sorted((reads | set(live_out)) - ({self_name} if self_name else set()))
+                    args = ([ast.arg(arg=self_name)] if self_name else []) + [ast.arg(arg=a) for a in ins]
+                    body: List[ast.stmt] = [st]
+                    if live_out:
+                        body.append(ast.Return(value=ast.Tuple(
+                            elts=[ast.Name(id=a, ctx=ast.Load()) for a in live_out], ctx=ast.Load())
+                            if len(live_out) > 1 else ast.Name(id=live_out[0], ctx=ast.Load())))
+                    helper = ast.FunctionDef(
+                        name=name, args=ast.arguments(posonlyargs=[], args=args, vararg=None, kwonlyargs=[],
+                                                      kw_defaults=[], kwarg=None, defaults=[]),
+                        body=body, decorator_list=[], returns=None, type_comment=None, type_params=[])
+                    func = ast.Attribute(value=ast.Name(id=self_name, ctx=ast.Load()), attr=name, ctx=ast.Load()) \
+                        if self_name else ast.Name(id=name, ctx=ast.Load())
+                    call = ast.Call(func=func, args=[ast.Name(id=a, ctx=ast.Load()) for a in ins], keywords=[])
+                    if live_out:
+                        tgt = ast.Tuple(elts=[ast.Name(id=a, ctx=ast.Store()) for a in live_out], ctx=ast.Store()) \
+                            if len(live_out) > 1 else ast.Name(id=live_out[0], ctx=ast.Store())
+                        new_body.append(ast.copy_location(ast.Assign(targets=[tgt], value=call), st))
+                    else:
+                        new_body.append(ast.copy_location(ast.Expr(value=call), st))
+                    helpers.append(ast.copy_location(helper, st))
+                    bound |= _stores(st) & set(live_out)
+                    continue
+            new_body.append(st)
+            # names bound for certain after a simple statement; compound statements may bind
+            # on some paths only
+            if isinstance(st, (ast.Assign, ast.AnnAssign, ast.AugAssign, ast.Import, ast.ImportFrom)):
+                bound |= _stores(st)
+            elif isinstance(st, (ast.FunctionDef, ast.ClassDef)):
+                bound.add(st.name)
+            elif isinstance(st, ast.With):
+                bound |= {x.id for it in st.items if it.optional_vars is not None
+                          for x in ast.walk(it.optional_vars) if isinstance(x, ast.Name)}
+        fn.body = new_body
+        return helpers
+
+    def module(self, tree: ast.Module) -> ast.Module:
+        taken = {x.name for x in ast.walk(tree) if isinstance(x, (ast.FunctionDef, ast.ClassDef))}
+        new_top: List[ast.stmt] = []
+        for node in tree.body:
+            if isinstance(node, ast.FunctionDef):
+                hs = self.function(node, False, taken)
+                new_top.append(node)
+                new_top += hs
+            elif isinstance(node, ast.ClassDef):
+                body = []
+                for f in node.body:
+                    body.append(f)
+                    if isinstance(f, ast.FunctionDef):
+                        is_static = any(isinstance(d, ast.Name) and d.id == "staticmethod"
+                                        for d in f.decorator_list)
+                        hs = self.function(f, not is_static, taken)
+                        if is_static:
+                            # helpers of a static method are module functions
+                            new_top += hs
+                        else:
+                            body += hs
+                node.body = body
+                new_top.append(node)
+            else:
+                new_top.append(node)
+        # module-level helpers of static methods were appended before their class: fine for calls
+        tree.body = new_top
+        return tree
+
+
+def extract_blocks(scratch: str) -> List[str]:
+    """Extract-method on every function: top-level loops / branches / with-blocks become new
+    private helpers (see _Extractor)."""
+    ex = _Extractor()
+    return _rewrite(scratch, lambda tree, src, full: ex.module(tree))
+
+
+# ------------------------------------------------------------------ branch spellings
+class _CondExpr(ast.NodeTransformer):
+    """if c: x = A  else: x = B      ->      x = A if c else B"""
+
+    def visit_If(self, node):
+        self.generic_visit(node)
+        if len(node.body) == 1 and len(node.orelse) == 1 and \
+                isinstance(node.body[0], ast.Assign) and isinstance(node.orelse[0], ast.Assign) \
+                and len(node.body[0].targets) == 1 and len(node.orelse[0].targets) == 1 \
+                and isinstance(node.body[0].targets[0], (ast.Name, ast.Attribute)) \
+                and ast.dump(node.body[0].targets[0]) == ast.dump(node.orelse[0].targets[0]):
+            new = ast.Assign(targets=node.body[0].targets,
+                             value=ast.IfExp(test=node.test, body=node.body[0].value,
+                                             orelse=node.orelse[0].value))
+            return ast.copy_location(new, node)
+        return node
+
+
+def conditional_expressions(scratch: str) -> List[str]:
+    """Two-armed ifs that assign one target written as conditional expressions."""
+    return _rewrite(scratch, lambda tree, src, full: _CondExpr().visit(tree))
+
+
+class _DefaultFirst(ast.NodeTransformer):
+    """if c: x = A  else: x = B      ->      x = B; if c: x = A
+    when B is a constant, a plain name or an attribute chain (nothing to evaluate twice or out
+    of order) and the test does not read x."""
+
+    def _block(self, stmts):
+        out = []
+        for st in stmts:
+            if isinstance(st, ast.If) and len(st.body) == 1 and len(st.orelse) == 1 and \
+                    isinstance(st.body[0], ast.Assign) and isinstance(st.orelse[0], ast.Assign) \
+                    and len(st.body[0].targets) == 1 and len(st.orelse[0].targets) == 1 \
+                    and isinstance(st.body[0].targets[0], ast.Name) \
+                    and ast.dump(st.body[0].targets[0]) == ast.dump(st.orelse[0].targets[0]):
+                name = st.body[0].targets[0].id
+                b = st.orelse[0].value
+                plain = isinstance(b, (ast.Constant, ast.Name)) or (
+                    isinstance(b, ast.Attribute) and all(
+                        isinstance(y, (ast.Attribute, ast.Name, ast.Load)) for y in ast.walk(b)))
+                if plain and name not in _loads(st.test) and name not in _loads(st.body[0].value) \
+                        and name not in _loads(b):
+                    out.append(ast.copy_location(st.orelse[0], st))
+                    st.orelse = []
+                    out.append(st)
+                    continue
+            out.append(st)
+        return out
+
+    def generic_visit(self, node):
+        super().generic_visit(node)
+        for field in ("body", "orelse", "finalbody"):
+            b = getattr(node, field, None)
+            if isinstance(b, list) and b and isinstance(b[0], ast.stmt):
+                setattr(node, field, self._block(b))
+        return node
+
+
+def default_first(scratch: str) -> List[str]:
+    """Two-armed ifs that choose between a computed value and a plain default written as
+    `x = default` followed by a one-armed if."""
+    return _rewrite(scratch, lambda tree, src, full: _DefaultFirst().visit(tree))
+
+
+class _ReturnInBranches(ast.NodeTransformer):
+    """... if c: A  else: B; return e      ->      ... if c: A; return e  else: B; return e"""
+
+    def visit_FunctionDef(self, node):
+        self.generic_visit(node)
+        if len(node.body) >= 2 and isinstance(node.body[-1], ast.Return) and \
+                isinstance(node.body[-2], ast.If) and node.body[-2].orelse:
+            ret, br = node.body[-1], node.body[-2]
+            import copy
+            def push(stmts):
+                last = stmts[-1]
+                if isinstance(last, ast.If) and last.orelse:
+                    push(last.body)
+                    push(last.orelse)
+                elif not isinstance(last, (ast.Return, ast.Raise)):
+                    stmts.append(copy.deepcopy(ret))
+            push(br.body)
+            push(br.orelse)
+            node.body = node.body[:-1]
+        return node
+
+
+def return_in_branches(scratch: str) -> List[str]:
+    """The final return of a function copied into the arms of the if / elif / else that
+    precedes it (single exit -> early exits)."""
+    return _rewrite(scratch, lambda tree, src, full: _ReturnInBranches().visit(tree))
 
 
 def all_rewrites(scratch: str) -> List[str]:
